@@ -7,6 +7,7 @@ import threading
 import warnings
 
 import labrea
+import labrea.cache
 import labrea.runtime as lrt
 from labrea.exceptions import EvaluationError, KeyNotFoundError
 
@@ -15,6 +16,17 @@ from .build import Program
 from .rt import FAULT_CLASSES, InjectedFault, Log, crepr, freeze
 
 warnings.simplefilter("ignore")
+
+
+class InjectedCacheGetFailure(InjectedFault, labrea.cache.CacheGetFailure):
+    """User code failing with the very exception type labrea uses internally for cache misses."""
+
+    def __init__(self, addr):
+        Exception.__init__(self, f"injected fault at {addr}")
+        self.addr = addr
+
+
+FAULT_CLASSES["CacheGetFailure"] = InjectedCacheGetFailure
 
 EVAL_OPS = ("evaluate", "call", "validate", "keys", "explain", "fingerprint")
 
